@@ -303,7 +303,8 @@ def c10_bounded(tier, seed):
         br.bound = ("no-op apply on every module shape of bounded/scen.py (kinds x functions x CFI layouts x annotations x data section); split/join round trip on "
                     "all layouts of <= 3 code or data blocks (overlapping and zero-sized included) over a 5-byte interval with symbolic expressions and one table; "
                     "alignment after rewrites on a 3-block function with alignments 1/2/4/8/16 on the block after the edit and every single edit; "
-                    "an aligned block starting inside an unaligned overlapping block, alignments 2..16, 1/2/3/5 bytes inserted before the group")
+                    "an aligned block starting inside an unaligned overlapping block, alignments 2..16, 1/2/3/5 bytes inserted before the group; "
+                    "a patch containing .align 4/8/16 inserted into each of 3 blocks with the module's alignment table absent / empty / populated, ELF and PE")
         br.clauses = ["C10/no-op-apply-is-the-identity", "C10/split-preserves-block-bytes-and-addresses", "C10/join-after-split-restores-the-interval",
                       "C10/alignment-requirements-hold-after-a-rewrite", "C10/padding-is-nops-or-zeros-covered-by-blocks"]
         distinct = set()
@@ -388,6 +389,36 @@ def c10_bounded(tier, seed):
                             cov[q] = 1
                     if i.size and not all(cov):
                         br.failures.append({"clause": "C10/padding-is-nops-or-zeros-covered-by-blocks", "witness": desc, "detail": "uncovered bytes in interval at %#x" % i.address})
+        # alignment requirements of blocks that a PATCH adds (.align inside the patch), for every state of the module's alignment table
+        for table_state, ff, al, where in itertools.product(("absent", "empty", "entries"), (gtirb.Module.FileFormat.ELF, gtirb.Module.FileFormat.PE), (4, 8, 16), (0, 1, 2)):
+            ir, m = create_test_module(ff, gtirb.Module.ISA.X64)
+            _, tbi = add_text_section(m, address=0x1000)
+            bs = [add_code_block(tbi, b"\x53\x56\x57"), add_code_block(tbi, b"\x90\x90\x90"), add_code_block(tbi, b"\x90\xc3")]
+            add_edge(ir.cfg, bs[0], bs[1], gtirb.EdgeType.Fallthrough)
+            add_edge(ir.cfg, bs[1], bs[2], gtirb.EdgeType.Fallthrough)
+            add_edge(ir.cfg, bs[2], add_proxy_block(m), gtirb.EdgeType.Return)
+            m.aux_data.pop("alignment", None)
+            if table_state == "empty":
+                _auxdata.alignment.set(m, {})
+            elif table_state == "entries":
+                _auxdata.alignment.set(m, {bs[0]: 1})
+            rc = RW.RewritingContext(m, [])
+            rc.insert_at(bs[where], 1, scen.mkpatch("nop\n.align %d\nnop" % al))
+            br.cases += 1
+            distinct.add(("patch-align", table_state, ff.name, al, where))
+            desc = {"alignment table before": table_state, "format": ff.name, "patch": ["nop", ".align %d" % al, "nop"], "inserted into block": where}
+            try:
+                rc.apply()
+            except Exception as e:      # noqa
+                br.failures.append({"clause": "C10/alignment-requirements-hold-after-a-rewrite", "witness": desc, "detail": "%s: %s" % (type(e).__name__, str(e)[:80])})
+                continue
+            tab = _auxdata.alignment.get(m) or {}
+            want = [b_ for b_, a_ in tab.items() if isinstance(b_, gtirb.ByteBlock) and b_.module is m and a_ == al]
+            if not want:
+                br.failures.append({"clause": "C10/alignment-requirements-hold-after-a-rewrite", "witness": desc, "detail": "the patch's .align %d left no alignment requirement in the module" % al})
+            for blk, a_ in tab.items():
+                if isinstance(blk, gtirb.ByteBlock) and blk.module is m and blk.address % a_:
+                    br.failures.append({"clause": "C10/alignment-requirements-hold-after-a-rewrite", "witness": desc, "detail": "block at %#x (added by the patch) needs alignment %d" % (blk.address, a_)})
         # the aligned block is not the first block of its group of overlapping blocks: A (unaligned) contains the aligned block B
         for al, grow in itertools.product((2, 4, 8, 16), (1, 2, 3, 5)):
             ir, m = create_test_module(gtirb.Module.FileFormat.ELF, gtirb.Module.ISA.X64)
@@ -456,8 +487,9 @@ for pcs, nscr, clob, flags, align, off in itertools.product((False, True), (0, 2
     ir, m, bi, blocks, fl = scen.build(scen.Shape("call", True))
     rc = RW.RewritingContext(m, fl)
     @patch_constraints(preserve_caller_saved_registers=pcs, scratch_registers=nscr, clobbers_registers=clob, clobbers_flags=flags, align_stack=align)
-    def pat(ctx, *scratch):
-        return "nop" + "".join("\nmovq $1, %%%%%%s" %% r for r in scratch)
+    def pat(ctx):
+        # the scratch registers the context hands out are part of the result
+        return "nop" + "".join("\nmovq $1, %%" + format(r, "64") for r in ctx.scratch_registers)
     rc.insert_at(blocks[1], off, Patch.from_function(pat))
     key = repr(("constraints", pcs, nscr, clob, flags, align, off))
     try:
@@ -542,6 +574,10 @@ def c11_bounded(tier, seed):
                                             "detail": "%s vs %s" % (x[2][:12], y[2][:12])})
                         break
             br.samples = [{"scenario": base[0][:2], "dump_sha1": base[0][2]}] if base else []
+            dead = [x[0] for x in base if x[0].startswith("('constraints'") and str(x[2]).startswith("EXC")]
+            if dead:
+                # a scenario of the constraints family that does not even apply() compares nothing: checker error, not a verdict
+                br.assumption_hits.append("constraints scenarios raise instead of rewriting: %s" % dead[:2])
         # in-process repetition: same module, same modifications, block objects created in every order (object identities and
         # therefore set iteration orders differ between builds)
         import itertools
